@@ -81,7 +81,8 @@ class Scheduler:
         """
         if isinstance(event, DelayedEvent):
             if event.delay > 0:
-                event.delay -= dt
+                # round away float noise (1.0 - 5*0.2 is 5.5e-17, not 0) so that the event waits ceil(delay/dt) steps
+                event.delay = round(event.delay - dt, 9)
                 # events are popped from the end of the queue: prepend to keep their relative order
                 self.delayed_events.insert(0, event)
                 return None
